@@ -345,7 +345,9 @@ def gen_reply(rng, key, mode=None):
     elif mode == 'upgrade':
         sub, upgrade = rng.choice([('missing', []), ('h2c', [b'h2c']), ('websocket2', [b'websocket2']), ('list', [b'websocket, h2c']), ('empty', [b'']),
                                    ('dup', [b'websocket', b'websocket']), ('websockets', [b'websockets']), ('web-socket', [b'web socket']),
-                                   ('quoted', [b'"websocket"']), ('TLS', [b'TLS/1.0'])])
+                                   ('quoted', [b'"websocket"']), ('TLS', [b'TLS/1.0']),
+                                   # values that end up in the Rejected reason: format directives in them must not matter
+                                   ('braces', [b'{upgrade}']), ('brace-tail', [b'websocket}']), ('index', [b'{0} {}']), ('percent', [b'%s %d %(x)s']), ('lone-brace', [b'{'])])
         intended = 'rejected'
     elif mode == 'accept':
         sub = rng.choice(WRONG_ACCEPT)
